@@ -53,6 +53,12 @@ type Itf struct {
 type Case struct {
 	Package string `json:"package"`
 	Itfs    []Itf  `json:"itfs"`
+	// Legacy: an object generated first in the same process and not judged. It
+	// uses signature strings of the package together with other definitions of
+	// structs of the same names (two revisions of a struct under one name, which
+	// the generator has to rename): whatever that does, the package which
+	// follows is a fresh one.
+	Legacy *Itf `json:"legacy,omitempty"`
 }
 
 // identifiers that start with an IDL basic-type keyword
@@ -61,10 +67,40 @@ var keywordPrefixed = []string{"int8x", "strategy", "anything", "objective", "bo
 var reservedTemplateBases = map[string]bool{"Map": true, "Vec": true, "Tuple": true}
 
 type namer struct {
-	used map[string]bool
+	used  map[string]bool
+	exact map[string]bool
+}
+
+// flipFirst changes the case of the first letter.
+func flipFirst(s string) string {
+	if s[:1] == strings.ToUpper(s[:1]) {
+		return strings.ToLower(s[:1]) + s[1:]
+	}
+	return strings.ToUpper(s[:1]) + s[1:]
+}
+
+// variant returns a name which differs from a name already given only by the
+// case of its first letter (point / Point), if there is one to be had.
+func (n *namer) variant(t *rapid.T, label string) (string, bool) {
+	var cands []string
+	for k := range n.exact {
+		if v := flipFirst(k); v != k && !n.exact[v] && !strings.Contains(k, "<") {
+			cands = append(cands, v)
+		}
+	}
+	if len(cands) == 0 {
+		return "", false
+	}
+	sort.Strings(cands)
+	v := cands[rapid.IntRange(0, len(cands)-1).Draw(t, label+"_variant")]
+	n.exact[v] = true
+	return v, true
 }
 
 func (n *namer) fresh(t *rapid.T, label string, allowKeywordPrefix bool) string {
+	if n.exact == nil {
+		n.exact = map[string]bool{}
+	}
 	for i := 0; ; i++ {
 		var s string
 		if allowKeywordPrefix && rapid.IntRange(0, 7).Draw(t, label+"_kw") == 0 {
@@ -77,6 +113,7 @@ func (n *namer) fresh(t *rapid.T, label string, allowKeywordPrefix bool) string 
 		}
 		if !n.used[strings.ToLower(s)] {
 			n.used[strings.ToLower(s)] = true
+			n.exact[s] = true
 			return s
 		}
 	}
@@ -138,6 +175,13 @@ func genCase(t *rapid.T) Case {
 	ns := rapid.IntRange(0, 4).Draw(t, "nstructs")
 	for i := 0; i < ns; i++ {
 		name := names.fresh(t, "struct", kwStructs)
+		// now and then a name which another struct (or, below, an interface)
+		// bears with the other case of the first letter: point and Point
+		if i > 0 && rapid.IntRange(0, 5).Draw(t, "casevariant") == 0 {
+			if v, ok := names.variant(t, "struct"); ok {
+				name = v
+			}
+		}
 		if rapid.IntRange(0, 6).Draw(t, "template") == 0 && !reservedTemplateBases[name] {
 			name += "<" + gen.Ident().Draw(t, "targ") + ">"
 		}
@@ -216,6 +260,36 @@ func genCase(t *rapid.T) Case {
 			itf.Props = append(itf.Props, Signal{ID: freshIDOf("prop"), Name: an.fresh(t, "prop", true), Sig: drawTuple(t, pool, 1, 2).Sig()})
 		}
 		c.Itfs = append(c.Itfs, itf)
+	}
+	if len(pool) > 0 && rapid.IntRange(0, 3).Draw(t, "legacy") == 0 {
+		// two revisions of every struct of the pool under one name, used side by side
+		leg := Itf{Name: "Legacy" + names.fresh(t, "legacyitf", false)}
+		id := uint32(100)
+		// the other revision comes first or last (which of the two the generator
+		// renames depends on the order in which it meets them)
+		revFirst := rapid.Bool().Draw(t, "revfirst")
+		for _, st := range pool {
+			rev := ref.StructOf(st.Name, append([]string{"rev"}, st.Fields...), append([]*ref.Type{ref.Scalar(ref.KInt32)}, st.Members...))
+			order := []*ref.Type{st, rev, ref.ListOf(st)}
+			if revFirst {
+				order = []*ref.Type{rev, st, ref.ListOf(st)}
+			}
+			for _, ty := range order {
+				leg.Methods = append(leg.Methods, Method{ID: id, Name: fmt.Sprintf("m%d", id), Params: "(" + ty.Sig() + ")", Ret: ty.Sig()})
+				id++
+			}
+		}
+		for _, itf := range c.Itfs {
+			for _, m := range itf.Methods {
+				leg.Methods = append(leg.Methods, Method{ID: id, Name: fmt.Sprintf("m%d", id), Params: m.Params, Ret: m.Ret})
+				id++
+			}
+			for _, sg := range itf.Signals {
+				leg.Signals = append(leg.Signals, Signal{ID: id, Name: fmt.Sprintf("s%d", id), Sig: sg.Sig})
+				id++
+			}
+		}
+		c.Legacy = &leg
 	}
 	return c
 }
@@ -312,6 +386,18 @@ func kwClass(c Case) string {
 }
 
 func checkCase(c Case) error {
+	if c.Legacy != nil {
+		// generated and parsed, not judged (a meta-object with two structs of one
+		// name is outside the property): only its after-effects are of interest
+		if text, err, p := generate(Case{Package: "legacy", Itfs: []Itf{*c.Legacy}}); p != nil {
+			return vt.Violationf("C18:generate-panic", "GenerateIDL panicked on an object with two revisions of a struct: %v", p)
+		} else if err == nil {
+			if _, _, p := parseIDL(text); p != nil {
+				return vt.Violationf("C18:parse-panic", "ParseIDL panicked on generated IDL: %v\n%s", p, text)
+			}
+		}
+		vt.Label("after-legacy-object")
+	}
 	text, err, p := generate(c)
 	if p != nil {
 		return vt.Violationf("C18:generate-panic", "GenerateIDL panicked: %v", p)
